@@ -10,8 +10,8 @@
      src/backend/interpreter/executors/control_flow_executor.cpp
          ControlFlowExecutor::execute_if_statement, ::execute_while_statement,
          ::execute_for_statement (auto-yield after every iteration, explicit yield turned into
-         YieldException(true), init skipped when the loop variable exists, variable removed only by
-         the activation that declared it)
+         YieldException(true), init skipped when the loop variable exists, variable removed by the
+         activation that declared it or that finds the declaration record in statement_positions)
    Spec is the body run alone as an ordinary sequential program (yield = no-op).
 
    Task bodies are over int locals:  emit / assign / x = await child(e) / yield / return / block /
@@ -282,12 +282,18 @@ Fixpoint mexec (p : path) (s : stmt) (st : mstate) {struct s} : mstate * outcome
   | SWhile c b =>                                                 (* execute_while_statement *)
       mwhile auto (fun l => truthy (eval c l)) (compound_with mexec (O :: p) b) fuel st
   | SFor x i c u b =>                                             (* execute_for_statement *)
-      let declared := negb (exists_in x (m_loc st)) in            (* should_execute_init *)
-      let st0 := if declared then with_loc st (declare x (eval i (m_loc st)) (m_loc st)) else st in
+      (* fix 4fa4431: the activation that declares the variable records it in statement_positions
+         under the init node (key 2 :: p); a re-entered activation that finds the record owns it too *)
+      let fresh_decl := negb (exists_in x (m_loc st)) in          (* should_execute_init *)
+      let owned := match pos_get (2%nat :: p) (m_pos st) with Some _ => true | None => false end in
+      let declared := fresh_decl || owned in                      (* init_var_declared *)
+      let st0 := if fresh_decl
+                 then mkM (declare x (eval i (m_loc st)) (m_loc st)) (pos_set (2%nat :: p) 1%nat (m_pos st)) (m_out st)
+                 else st in
       match mfor auto (fun l => truthy (eval c l)) (compound_with mexec (O :: p) b)
                  (fun l => assign x (eval u l) l) fuel st0 with
       | (st', ONormal) =>                                         (* loop left normally *)
-          (if declared then with_loc st' (remove x (m_loc st')) else st', ONormal)
+          (if declared then mkM (remove x (m_loc st')) (pos_del (2%nat :: p) (m_pos st')) (m_out st') else st', ONormal)
       | r => r
       end
   end.
@@ -450,15 +456,8 @@ Definition disjointb (a b : list var) : bool := forallb (fun x => negb (memb x b
 Fixpoint nodupb (l : list var) : bool :=
   match l with [] => true | x :: r => negb (memb x r) && nodupb r end.
 
-(* loop-variable hygiene: a statement mentions no variable of a top-level for loop that precedes it
-   (X = the variables of the for loops already passed) *)
-Fixpoint hygienic (X : list var) (body : list stmt) : bool :=
-  match body with
-  | [] => true
-  | s :: r => disjointb (mentions s) X && hygienic (X ++ for_var s) r
-  end.
-
-(* the fragment: yields and loops only at the top level of the body, loop bodies and branches quiet,
-   loop variables are not task parameters and are not mentioned after their loop *)
+(* the fragment: yields and loops only at the top level of the body, loop bodies and branches quiet
+   (a while body may end with one yield), loop variables are not task parameters (they may be
+   reused by later loops: since fix 4fa4431 a suspended for loop still removes its variable) *)
 Definition wf_body (params : list var) (body : list stmt) : bool :=
-  forallb top_ok body && disjointb (flat_map for_var body) params && hygienic [] body.
+  forallb top_ok body && disjointb (flat_map for_var body) params.
